@@ -1,4 +1,5 @@
 import QrlewModel.Props.C07
+import QrlewModel.Lemmas.Lists
 /-!
 # C14 — columns declared unique are unique (propagation rules)
 
@@ -8,6 +9,7 @@ and for joins whose other side has a unique key; a lossy cast is the kernel-chec
 (it was listed as a bijection before the repair).
 -/
 namespace Qrlew.C14
+open Qrlew.Lists
 open Qrlew.Rel
 variable {α β κ γ : Type}
 
@@ -59,20 +61,6 @@ theorem join_keeps_left_unique [DecidableEq κ] (kl : α → κ) (kr : β → κ
       simp only at hcol hxy
       exact List.mem_map.mpr ⟨a', ha', by rw [hcol, ← hxy]⟩
 
-theorem eraseDups_length_le_aux [DecidableEq α] : ∀ (n : Nat) (l : List α), l.length ≤ n → l.eraseDups.length ≤ l.length
-  | 0, l, h => by
-    have : l = [] := List.eq_nil_of_length_eq_zero (by omega)
-    subst this; simp
-  | _ + 1, [], _ => by simp
-  | n + 1, a :: as, h => by
-    rw [List.eraseDups_cons]
-    have h2 : (as.filter fun b => !b == a).length ≤ as.length := List.length_filter_le _ _
-    have := eraseDups_length_le_aux n (as.filter fun b => !b == a) (by simp only [List.length_cons] at h; omega)
-    simp only [List.length_cons]; omega
-
-theorem eraseDups_length_le [DecidableEq α] (l : List α) : l.eraseDups.length ≤ l.length :=
-  eraseDups_length_le_aux l.length l (Nat.le_refl _)
-
 /-- a literal value list is declared unique exactly when it has no repeated value (adjacent or not) -/
 theorem values_unique_iff [DecidableEq α] (vals : List α) : Rel.valuesUnique vals = true ↔ vals.Nodup := by
   unfold Rel.valuesUnique
@@ -101,32 +89,6 @@ theorem values_unique_iff [DecidableEq α] (vals : List α) : Rel.valuesUnique v
 /-- the case an adjacent-only comparison gets wrong -/
 example : Rel.valuesUnique [1, 2, 1] = false ∧ ¬ ([1, 2, 1] : List Nat).Nodup := by decide
 
-
-theorem mem_of_mem_eraseDups_aux [DecidableEq α] : ∀ (n : Nat) (l : List α), l.length ≤ n → ∀ x, x ∈ l.eraseDups → x ∈ l
-  | 0, l, h, x, hx => by
-    have : l = [] := List.eq_nil_of_length_eq_zero (by omega)
-    subst this; simp at hx
-  | _ + 1, [], _, x, hx => by simp at hx
-  | n + 1, a :: as, h, x, hx => by
-    rw [List.eraseDups_cons] at hx
-    rcases List.mem_cons.mp hx with rfl | hx
-    · simp
-    · have h2 : (as.filter fun b => !b == a).length ≤ as.length := List.length_filter_le _ _
-      have := mem_of_mem_eraseDups_aux n (as.filter fun b => !b == a) (by simp only [List.length_cons] at h; omega) x hx
-      exact List.mem_cons_of_mem _ (List.mem_filter.mp this).1
-
-theorem nodup_eraseDups_aux [DecidableEq α] : ∀ (n : Nat) (l : List α), l.length ≤ n → l.eraseDups.Nodup
-  | 0, l, h => by
-    have : l = [] := List.eq_nil_of_length_eq_zero (by omega)
-    subst this; simp
-  | _ + 1, [], _ => by simp
-  | n + 1, a :: as, h => by
-    rw [List.eraseDups_cons, List.nodup_cons]
-    have h2 : (as.filter fun b => !b == a).length ≤ as.length := List.length_filter_le _ _
-    have hlen : (as.filter fun b => !b == a).length ≤ n := by simp only [List.length_cons] at h; omega
-    refine ⟨fun hmem => ?_, nodup_eraseDups_aux n _ hlen⟩
-    have := mem_of_mem_eraseDups_aux n _ hlen a hmem
-    simp at this
 
 /-- the values of a single grouping key, one per group, are duplicate-free -/
 theorem single_group_key_unique [DecidableEq κ] (key : α → κ) (b : List α) : ((b.map key).eraseDups).Nodup :=
